@@ -126,36 +126,52 @@ theorem streamsIdx_lt {args : List Bytes} {idx : List Nat}
         have := findFold_lt hm
         omega
 
-theorem sortLoop_lt (N : Nat) (i : Nat) (rem : List Bytes) (keys : List Nat) (hs : Bool)
-    (ks : List Nat) (b : Bool)
-    (h : sortLoop i rem keys hs = some (ks, b))
-    (hk : ∀ k ∈ keys, k < N) (hN : i + rem.length = N) : ∀ k ∈ ks, k < N := by
-  fun_induction sortLoop i rem keys hs with
-  | case1 i keys hs =>
+theorem sortLoop_lt (N : Nat) (skip i : Nat) (rem : List Bytes) (dst : Option Nat) (d : Nat)
+    (h : sortLoop skip i rem dst = some (some d))
+    (hk : ∀ k, dst = some k → k < N) (hN : i + rem.length = N) : d < N := by
+  induction rem generalizing skip i dst with
+  | nil =>
+    simp only [sortLoop] at h
     injection h with h
-    injection h with h1 h2
-    subst h1; exact hk
-  | case2 i keys hs a hst => cases h
-  | case3 i keys hs a hst x rest' ih =>
-    apply ih h
-    · intro k hk'
-      rcases List.mem_append.mp hk' with hk' | hk'
-      · exact hk k hk'
-      · simp at hk'; subst hk'; simp at hN; omega
-    · simp at hN ⊢; omega
-  | case4 i keys hs a hst hby => cases h
-  | case5 i keys hs a hst hby p rest' hp => cases h
-  | case6 i keys hs a hst hby p rest' hp ih =>
-    apply ih h hk
-    simp at hN ⊢; omega
-  | case7 i keys hs a hst hby hget => cases h
-  | case8 i keys hs a hst hby hget p rest' hp => cases h
-  | case9 i keys hs a hst hby hget p rest' hp ih =>
-    apply ih h hk
-    simp at hN ⊢; omega
-  | case10 i keys hs a rest hst hby hget ih =>
-    apply ih h hk
-    simp at hN ⊢; omega
+    exact hk d h
+  | cons a rest ih =>
+    cases skip with
+    | succ s =>
+      simp only [sortLoop] at h
+      exact ih s (i + 1) dst h hk (by simp at hN ⊢; omega)
+    | zero =>
+      simp only [sortLoop] at h
+      split at h
+      · exact ih 2 (i + 1) dst h hk (by simp at hN ⊢; omega)
+      · split at h
+        · cases rest with
+          | nil => simp at h
+          | cons x rest' =>
+            simp only at h
+            split at h
+            · cases h
+            · refine ih 1 (i + 1) (some (i + 1)) h ?_ (by simp at hN ⊢; omega)
+              intro k hk'
+              injection hk' with hk'
+              subst hk'
+              simp at hN; omega
+        · split at h
+          · cases rest with
+            | nil => simp at h
+            | cons x rest' =>
+              simp only at h
+              split at h
+              · cases h
+              · exact ih 1 (i + 1) dst h hk (by simp at hN ⊢; omega)
+          · split at h
+            · cases rest with
+              | nil => simp at h
+              | cons x rest' =>
+                simp only at h
+                split at h
+                · cases h
+                · exact ih 1 (i + 1) dst h hk (by simp at hN ⊢; omega)
+            · exact ih 0 (i + 1) dst h hk (by simp at hN ⊢; omega)
 
 theorem sortIdx_lt {args : List Bytes} {idx : List Nat}
     (h : sortIdx args = some idx) : ∀ i ∈ idx, i < args.length := by
@@ -164,20 +180,38 @@ theorem sortIdx_lt {args : List Bytes} {idx : List Nat}
   · cases h
   · rename_i a rest
     split at h
-    · rename_i keys hl
+    · rename_i d hl
       injection h with h; subst h
-      exact sortLoop_lt (rest.length + 1) 1 rest [0] false keys true hl (by simp) (by omega)
+      have := sortLoop_lt (rest.length + 1) 0 1 rest none d hl (by intro k hk; cases hk) (by omega)
+      intro i hi
+      simp at hi
+      rcases hi with hi | hi <;> subst hi <;> simp <;> omega
     · cases h
 
-theorem geoLoop_lt (N : Nat) (i : Nat) (l : List Bytes) (k : Nat)
-    (h : geoLoop i l = some k) (hN : i + l.length = N) : k < N := by
-  fun_induction geoLoop i l with
-  | case1 i => cases h
-  | case2 i a => cases h
-  | case3 i a b rest hst =>
-    injection h with h; subst h; simp at hN; omega
-  | case4 i a b rest hst ih =>
-    apply ih h; simp at hN ⊢; omega
+theorem geoLoop_lt (N : Nat) (skip i : Nat) (l : List Bytes) (dst : Option Nat) (k : Nat)
+    (h : geoLoop skip i l dst = some k)
+    (hk : ∀ j, dst = some j → j < N) (hN : i + l.length = N) : k < N := by
+  induction l generalizing skip i dst with
+  | nil =>
+    simp only [geoLoop] at h
+    exact hk k h
+  | cons a rest ih =>
+    cases skip with
+    | succ s =>
+      simp only [geoLoop] at h
+      exact ih s (i + 1) dst h hk (by simp at hN ⊢; omega)
+    | zero =>
+      simp only [geoLoop] at h
+      split at h
+      · rename_i hc
+        refine ih 1 (i + 1) (some (i + 1)) h ?_ (by simp at hN ⊢; omega)
+        intro j hj
+        injection hj with hj
+        subst hj
+        cases rest with
+        | nil => simp at hc
+        | cons x r => simp at hN; omega
+      · exact ih 0 (i + 1) dst h hk (by simp at hN ⊢; omega)
 
 theorem geoIdx_lt {args : List Bytes} {idx : List Nat}
     (h : geoIdx args = some idx) : ∀ i ∈ idx, i < args.length := by
@@ -188,10 +222,17 @@ theorem geoIdx_lt {args : List Bytes} {idx : List Nat}
     split at h
     · rename_i k hk
       injection h with h; subst h
-      have := geoLoop_lt (rest.length + 1) 1 rest k hk (by omega)
-      intro i hi
-      simp at hi
-      rcases hi with hi | hi <;> subst hi <;> simp <;> omega
+      by_cases hlen : 4 ≤ (a :: rest).length
+      · have := geoLoop_lt (a :: rest).length 0 4 ((a :: rest).drop 4) none k hk (by intro j hj; cases hj)
+          (by simp only [List.length_drop]; omega)
+        intro i hi
+        simp at hi
+        rcases hi with hi | hi
+        · subst hi; simp
+        · subst hi; exact this
+      · have hd : (a :: rest).drop 4 = [] := List.drop_eq_nil_of_le (by omega)
+        rw [hd] at hk
+        simp [geoLoop] at hk
     · cases h
 
 theorem runExtractor_lt {ex : Gen.KeyExtractor} {args : List Bytes} {idx : List Nat}
